@@ -61,6 +61,10 @@ var (
 	notes            []Note
 )
 
+// reentrantConsumer is what the consumer at smf-reentrant.example does when it receives a notification (set by the
+// history executor: an update of the subscriber's first live session, through the world's router).
+var reentrantConsumer func()
+
 type Note struct {
 	Method, URL, Body string
 }
@@ -105,6 +109,13 @@ func workerInit() {
 		gock.New("http://smf-404.example").Post("/notify").Persist().Reply(404).JSON(map[string]any{"status": 404})
 		gock.New("http://smf-500.example").Post("/notify").Persist().Reply(500)
 		gock.New("http://smf-200.example").Post("/notify").Persist().Reply(200)
+		// a consumer that reacts to the notification at once: it sends an update for the session before it answers
+		gock.New("http://smf-reentrant.example").Post("/notify").Persist().AddMatcher(func(req *http.Request, _ *gock.Request) (bool, error) {
+			if f := reentrantConsumer; f != nil {
+				f()
+			}
+			return true, nil
+		}).Reply(204)
 		gock.Observe(func(req *http.Request, m gock.Mock) {
 			var body []byte
 			if req.Body != nil {
